@@ -1472,6 +1472,68 @@ def work_fixtures(item):
     return acc
 
 
+# ===================================================================== part: length-prefixed blocks
+def work_blocks(item):
+    """tls.push_block / push_opaque / push_list and their pull counterparts: for every prefix size 1..3 and body
+    lengths around 0, 2^8 and 2^16 (2^24 for the 3-byte prefix): a body that fits is written as
+    big-endian length + body (the reference) and read back; a body that does NOT fit its prefix must make the
+    encoder raise - never a prefix that lies about what follows."""
+    from aioquic import tls as T
+
+    acc = Acc()
+    cap, = item
+    mx = (1 << (8 * cap)) - 1
+    lens = sorted(set([0, 1, 2, 255, 256, 257, 300, 65535, 65536, 65537, 70000, mx - 1, mx, mx + 1, mx + 2, 2 * (mx + 1),
+                       2 * (mx + 1) + 5, 3 * (mx + 1) + 260]))
+    lens = [n for n in lens if n <= (1 << 24) + 600]
+    for n in lens:
+        body = bytes((i * 31 + n) & 0xFF for i in range(min(n, 4096))) * (n // 4096 + 1)
+        body = body[:n]
+        ref = None if n > mx else n.to_bytes(cap, "big") + body
+        for name in ("push_opaque", "push_block", "push_list"):
+            acc.cases["tls." + name] += 1
+            rp = dict(kind="block", cap=cap, n=n, fn=name)
+            buf = Buffer(capacity=n + 16)
+            try:
+                if name == "push_opaque":
+                    T.push_opaque(buf, cap, body)
+                elif name == "push_block":
+                    with T.push_block(buf, cap):
+                        buf.push_bytes(body)
+                else:
+                    T.push_list(buf, cap, buf.push_uint8, list(body[:70000]) if n <= 70000 else None)
+                got, exc = buf.data, None
+            except Exception as e:  # noqa
+                got, exc = None, type(e).__name__
+            if name == "push_list" and n > 70000:
+                continue
+            acc.outcomes["tls.%s:%s" % (name, "fits" if ref is not None else ("refused:" + exc if exc else "accepted_too_long"))] += 1
+            acc.value("tls." + name, (cap, n))
+            if ref is not None:
+                if exc is not None:
+                    differ(acc, "undocumented_exception", "tls." + name,
+                           "%s with a %d-byte body and a %d-byte length prefix raised %s" % (name, n, cap, exc), rp, n, exc=exc)
+                elif got != ref:
+                    differ(acc, "encoder_differs_from_reference", "tls." + name,
+                           "%s(%d-byte body, %d-byte prefix) wrote prefix %s, reference %s"
+                           % (name, n, cap, got[:cap].hex(), ref[:cap].hex()), rp, n)
+                else:
+                    b = Buffer(data=got + b"\x5a")
+                    if name == "push_list":
+                        back = _try(lambda: bytes(T.pull_list(b, cap, b.pull_uint8)))
+                    else:
+                        back = _try(T.pull_opaque, b, cap)
+                    if back != body or b.tell() != len(got):
+                        differ(acc, "roundtrip", "tls.pull_" + name[5:],
+                               "reading back %s(%d-byte body, %d-byte prefix) gave %d bytes at position %d"
+                               % (name, n, cap, len(back) if isinstance(back, bytes) else -1, b.tell()), rp, n)
+            elif exc is None:
+                differ(acc, "out_of_range_accepted", "tls." + name,
+                       "%s accepted a %d-byte body for a %d-byte length prefix (maximum %d) and wrote the prefix %s - "
+                       "a length that lies about what follows" % (name, n, cap, mx, got[:cap].hex()), rp, n)
+    return acc
+
+
 # ===================================================================== main
 PARTS = [
     ("ints", items_ints, work_ints),
@@ -1480,6 +1542,7 @@ PARTS = [
     ("tparams", items_tp, work_tp),
     ("tls", items_tls, work_tls),
     ("fixtures", lambda ctx: [("all",)], work_fixtures),
+    ("blocks", lambda ctx: [(1,), (2,), (3,)], work_blocks),
 ]
 
 GRAMMAR = {
@@ -1496,6 +1559,7 @@ GRAMMAR = {
            "{0,1,255,256} on full and minimal message, pairs of variations; 7 other messages: all extension subsets x unknown 0/1/3 x "
            "opaque sizes; non-ASCII / multi-name / reordered well-formed inputs",
     "fixtures": "the 16 captured messages in tests/tls_*.bin",
+    "blocks": "push/pull_opaque, push/pull_block, push/pull_list x prefix size 1..3 x body lengths around 0, 2^8, 2^16, 2^24 and beyond the prefix maximum",
 }
 
 
@@ -1523,7 +1587,7 @@ def run(ctx):
         if ctx.only_parts and name not in ctx.only_parts:
             continue
         todo += [(name, it) for it in mkitems(ctx)]
-    order = {"tls": 0, "headers": 1, "tparams": 2, "ack": 3, "ints": 4, "fixtures": 5}
+    order = {"tls": 0, "headers": 1, "tparams": 2, "ack": 3, "ints": 4, "fixtures": 5, "blocks": 6}
     todo.sort(key=lambda x: order[x[0]])
     results = core.pmap(_dispatch, todo)
     for name, mkitems, work in PARTS:
@@ -1652,6 +1716,8 @@ def replay(ctx, obj):
         tls_case(acc, jdec(rp["msg"]), rp["pushable"], True)
     elif kind == "fixture":
         acc.merge(work_fixtures(("all",)))
+    elif kind == "block":
+        acc.merge(work_blocks((rp["cap"],)))
     elif kind == "guard":
         _guard(acc, globals()[rp["fn"]], *jdec(rp["args"]))
     want = core.stable_hash({k: v for k, v in obj["signature"].items() if k != "part"})
